@@ -19,7 +19,7 @@ MODEL_MODULES = ["Ebv.Model.GenCond", "Ebv.Model.CondClass"]
 DRIVER = "Drivers/C03.lean"
 M64 = dsl.M64
 # classes of the unchanged tree, in order of precedence (shape predicates shared with Ebv.Gen.CondClass)
-CLASSES = ["sum-minus", "unary-in-place", "unary-32-in-64", "widen-in-place", "narrow-reg-in-64", "abs-32",
+CLASSES = ["unary-in-place", "unary-32-in-64", "widen-in-place", "narrow-reg-in-64", "abs-32",
            "const-left-32", "u64-vs-negative-short"]
 
 
@@ -265,7 +265,7 @@ def gen_programs(ctx):
 
 def internal_error(ctx, prog, res):
     """a well-formed statement program must be compiled or refused with AssembleError (no register left, register
-    without value) or the TypeError Python raises for `Sum +- int`; anything else (AssertionError in target(), a
+    without value) or a TypeError/AttributeError of Python itself (`with 3 < 5:`); anything else (AssertionError in target(), a
     placeholder that was never patched, IndexError in the splice ...) leaves the user without the selected branch"""
     if isinstance(res, str) and res.startswith("other:") and res not in ("other:TypeError", "other:AttributeError"):
         ctx.require(False, "the generator fails with an internal error on a well-formed statement program",
@@ -377,7 +377,7 @@ ASSUMPTIONS = ["registers in `owned` are declared by assigning EBPF.owners befor
 RULE = ("statement programs = JSON (dsl_cond.py): the atom family (6 comparison operators x 13 leaf kinds x 13 leaf kinds, bit tests x "
         "14 masks x 3 spellings, expressions as conditions; each x {with, with/Else, jumpIf, jumpIf/Else}), sampled (quick) or "
         "enumerated (thorough); random trees: nesting <= 3, and/or/not depth <= 3, compound operands (+ - * | ^ & neg abs, int on "
-        "either side, Sum), ownership at joins; inputs = boundary values around every constant in the program (c-1, c, c+1, -c), "
+        "either side, Sum - expression, Sum +- int, one Sum object used twice with different added constants), ownership at joins; inputs = boundary values around every constant in the program (c-1, c, c+1, -c), "
         "sign bits and width edges, small values, all-equal vectors; non-trivial = accepted with at least one condition")
 LEVEL_TEXT = ("Lean 4 proof by structural induction of a hand-written model of the comparison / with-block generator: closed-segment "
               "lemmas for code with forward jumps; cond_correct (induction on the condition tree: the code of `compare negative`, "
@@ -393,6 +393,7 @@ LEVEL_NOTE = ("trusted: Lean kernel + propext/Classical.choice/Quot.sound; model
               "used directly (off+1 branch), operands outside C01's fragment or compound 32-bit operands in unsigned 64-bit "
               "comparisons, reads of registers assigned in both branches, bit fields and "
               "fixed point (not modelled). Known defect classes of the unchanged tree (each refuted in Lean): u64-vs-negative-short, "
-              "narrow-reg-in-64, widen-in-place, const-left-32, and C01's unary-in-place, unary-32-in-64, abs-32, sum-minus.")
+              "narrow-reg-in-64, widen-in-place, const-left-32, and C01's unary-in-place, unary-32-in-64, abs-32. Sum - expression operands "
+              "(was class sum-minus) are inside elabC_truth / C03_partial since Sum.__sub__ was repaired.")
 TECHNIQUE = "Lean 4 structural induction over condition trees and statements (compiler correctness) + exact opcode-list correspondence"
 DESIGN_REF = "§4 C03"
